@@ -38,6 +38,7 @@ type c09case struct {
 	Clean bool      `json:"via_clean"`     // the last task is named clean and is run through `spok --clean`
 	Deflt bool      `json:"via_default"`   // the last task is named default and is run by giving no task names
 	Env   int       `json:"ambient_env"`   // core.HostileEnv variant
+	Edit  bool      `json:"edited_after_prior_success"` // after the prior success every dependency file is edited, then the run fails on the new content
 }
 
 func (k c09case) key() string { b, _ := json.Marshal(k); return string(b) }
@@ -101,6 +102,9 @@ func c09Gen(r *core.Rng) c09case {
 		if f == "--force" && r.Chance(50) {
 			k.Prior = true
 		}
+	}
+	if !k.Prior && r.Chance(30) {
+		k.Prior, k.Edit = true, true
 	}
 	if !k.Prior && r.Chance(10) {
 		last := &k.Tasks[len(k.Tasks)-1]
@@ -259,6 +263,15 @@ func c09Judge(c *core.Ctx, k c09case, res *core.ShardResult) (vs []core.Violatio
 			_ = os.Rename(filepath.Join(sb.Root, "off."+e.Name()), filepath.Join(sb.Flags, e.Name()))
 		}
 		res.Count("cases_with_prior_success", 1)
+		if k.Edit {
+			for _, f := range []string{"dep.txt", "other.txt"} {
+				_ = os.WriteFile(filepath.Join(sb.Proj, f), []byte(f+" edited"), 0o644)
+			}
+			for _, t := range k.Tasks {
+				_ = os.WriteFile(filepath.Join(sb.Proj, t.File), []byte(t.File+" edited"), 0o644)
+			}
+			res.Count("cases_edited_after_prior_success", 1)
+		}
 	}
 	// invocation 1
 	inv1, log1 := run(k.Flags)
